@@ -470,6 +470,24 @@ def r12_7(ctx):
     ctx.check(not exkept, "filter-table:excluded", where, "all %d excluded variables are dropped from the dump" % len(table), "excluded variables are dumped: %s" % exkept[:5])
 
 
+def r12_8(ctx):
+    """the state is persisted by an EXIT trap that is armed *before* the test's own shell expression runs in the same shell: a `trap .. EXIT` of the test
+    replaces it, and nothing of that test case is persisted. The template would have to shield the handler (e.g. a `trap` wrapper function that chains
+    the user's EXIT handler, defined after the state was sourced) or persist outside the user's reach"""
+    prog = ctx.prog
+    tpl = template(prog)
+    where = "src/executors/bash_runner.template"
+    segs = _segments(tpl.replace("{shell_expression}", ":"))
+    shield = [x for x in segs if re.match(r"^(function\s+trap\b|trap\s*\(\))", x) or re.match(r"^(readonly|declare\s+-r)\s+-f\b.*__scrut_persist_state", x)]
+    top = [l.strip() for l in tpl.splitlines() if l.strip() and not l.strip().startswith("#")]
+    arm = [i for i, l in enumerate(top) if re.search(TRAP_ARMING, l)]
+    expr = [i for i, l in enumerate(top) if "{shell_expression}" in l]
+    same_shell = bool(arm) and bool(expr) and arm[-1] < expr[-1] and not re.search(r"[(]\s*\{shell_expression\}|bash\s+-c", tpl)
+    ctx.check(bool(shield) or not same_shell, "exit-trap-shielded", where, "the persist handler cannot be displaced by the test's own `trap .. EXIT`",
+              "the EXIT handler is armed before `{shell_expression}` runs in the same shell and nothing shields it: a test case that sets its own EXIT trap "
+              "(`trap 'rm -f $tmp' EXIT; A=1`) replaces __scrut_persist_state - its variables, functions, options and directory are not persisted")
+
+
 def run(ctx):
     ctx.run_rule("R12.1", "one state directory (a TempDir in the document's temp dir) created before the loop and handed to every per-test-case runner [E-FLOW]", r12_1, floor=5)
     ctx.run_rule("R12.2", "BashRunner::run: persist_state 0 exactly for detached test cases; excluded_variables = BASH_EXCLUDED_VARIABLES.join(|); state_directory wired [E-FLOW, E-PATH]", r12_2, floor=4)
@@ -478,3 +496,4 @@ def run(ctx):
     ctx.run_rule("R12.4", "template order/presence: path, source state, conditional EXIT trap, expression last; trap saves/restores $?; dump group prints every state class into the sourced file [template analyzer]", r12_4, floor=14)
     ctx.run_rule("R12.5", "exclusion table == EXCL rows of the rustdoc table + scrut internals [E-TABLE]", r12_5, floor=5)
     ctx.run_rule("R12.7", "dump filters decide on the head of a `declare -p` line only: anchored, no unbounded wildcard in the flag part; representative ordinary variables survive, read-only / excluded ones are dropped [template analyzer, E-TABLE]", r12_7, floor=5)
+    ctx.run_rule("R12.8", "the persist handler is shielded from a `trap .. EXIT` of the test itself (known finding F46) [template analyzer]", r12_8, floor=1)
